@@ -1,8 +1,11 @@
 // Correspondence harness for C04: drives the real Array / List / Map / MultiMap / HashMap /
 // HashSet / PoolList / PoolMap with an element type that owns a heap cell and records every
 // construction, copy, assignment and destruction in a registry of instances.  After every
-// operation it prints the contents of all container variables, the number of live instances,
-// the number of lifetime anomalies the registry saw, the events of the operation in the order
+// operation it prints the contents of all container variables, the number of live instances that
+// the contents account for (all live instances minus what an empty container of each kind holds,
+// measured at start-up), the number of lifetime anomalies the registry saw (an instance found at
+// another address than the one it was constructed at is an anomaly), then - model section - the
+// number of all live instances, the events of the operation in the order
 // they happened (instance ids = construction serials; container allocations = allocation
 // serials, taken from ASan's malloc/free hooks inside the window of the library call), the
 // number of live container allocations and capacity() / the length of the free-item list.
@@ -316,6 +319,10 @@ static void dump_caps(void)
 // instances an empty container of each kind holds for itself (the element inside the embedded end item
 // of the node containers): measured once at start-up, not assumed
 static long g_base[POOLMAP + 1];
+// MultiMap::insert(position, key, value) in the case whose landing place depends on the tree shape: how many
+// places behind the hinted element's successor position the new element was linked (model section)
+static bool g_tie_set = false;
+static long g_tie = 0;
 
 static void line(long c, const char* res)
 {
@@ -327,6 +334,7 @@ static void line(long c, const char* res)
   for(int x = 0; x < NV; ++x) stored -= g_base[kindv[x]];
   printf(" ; stored=%ld bad=%ld | live=%ld ev=%s nb=%d caps=", stored, g_bad, g_live, g_evlen ? g_ev : ".", g_nb);
   dump_caps();
+  if(g_tie_set) printf(" tie=%ld", g_tie);
   printf("\n");
 }
 
@@ -582,8 +590,9 @@ static bool do_emplace(int x, vh::Tok& t)
   return true;
 }
 
-// Map / MultiMap::insert(position, key, value).  The MultiMap call whose result depends on the tree
-// shape (key of the hinted item <= key, key of the item behind it == key) is not made.
+// Map / MultiMap::insert(position, key, value).  For the MultiMap call whose result depends on the tree
+// shape (key of the hinted item <= key, key of the item behind it == key) the place where the new element
+// landed is reported (tie=<offset behind the hinted element's successor position>).
 template<typename C> static bool hint_tie(C& c, long h, int kz)
 {
   long n = (long)c.size();
@@ -599,7 +608,7 @@ static bool do_inshint(int x, Pos p, Arg ka, Arg va)
   long n = size_of(x);
   long h = p.mode == 0 ? 0 : p.mode == 1 ? n : (p.i < n ? p.i : n);
   int kz = ka.mode == 1 ? ka.z : ka.k->peek();
-  if(k == MULTIMAP && hint_tie(*AS(TMM, x), h, kz)) return false;
+  bool tie = k == MULTIMAP && hint_tie(*AS(TMM, x), h, kz);
   char kbuf[sizeof(K)] __attribute__((aligned(8)));
   char vbuf[sizeof(V)] __attribute__((aligned(8)));
   const K* kr = 0; const V* vr = 0;
@@ -608,7 +617,11 @@ static bool do_inshint(int x, Pos p, Arg ka, Arg va)
   if(va.mode == 1) { vt = new(vbuf) V(va.z); vr = vt; } else vr = va.v;
   g_win = 1;
   if(k == MAP) AS(TM, x)->insert(pos_iter(*AS(TM, x), p), *kr, *vr);
-  else AS(TMM, x)->insert(pos_iter(*AS(TMM, x), p), *kr, *vr);
+  else {
+    TMM::Iterator it = AS(TMM, x)->insert(pos_iter(*AS(TMM, x), p), *kr, *vr);
+    g_win = 0;
+    if(tie) { g_tie_set = true; g_tie = index_of(*AS(TMM, x), it) - (h + 1); }
+  }
   g_win = 0;
   if(vt) vt->~V();
   if(kt) kt->~K();
@@ -617,7 +630,7 @@ static bool do_inshint(int x, Pos p, Arg ka, Arg va)
 
 static void op(long c, long, vh::Tok& t)
 {
-  g_evlen = 0; g_ev[0] = 0;
+  g_evlen = 0; g_ev[0] = 0; g_tie_set = false;
   const char* o = t.v[0];
   long x = t.n > 1 ? atol(t.v[1]) : -1;
   bool did = false;
